@@ -369,7 +369,7 @@ impl World {
                         delta.new_inbound.push((c, ii));
                     }
                     // CONNACK acceptance
-                    if step.state_before == EngineState::PendingConnack && step.state_after == EngineState::Connected {
+                    if step.state_before == EngineState::PendingConnack && step.inbound.iter().any(|e| matches!(e, InboundView::Connack { reason: 0, .. })) {
                         let found = delta.new_inbound.iter().find_map(|(_, ii)| if let rf::Packet::Connack(k) = &self.conns[c].inbound[*ii].packet { Some(k.clone()) } else { None });
                         if let Some(k) = found {
                             if let Some(id) = &k.assigned_client_id { self.assigned_client_id = Some(id.clone()); }
